@@ -1,9 +1,15 @@
 HOOK_COMMITS = []
 ENGINES = [
-    {"name": "kernel", "path": "mc/kernel.py", "serves_properties": ["C01", "C03", "C04", "C05", "C09", "C13", "C15", "C16", "C17", "C18", "C19"], "kind_free_text": "hand-written bounded exhaustive explorer: units enumerate a finite space (alphabet x bound), sharded over a fork pool; recorder counts evaluations/distinct cases/states/transitions/witnesses; replay files; known-findings triage"},
+    {"name": "kernel", "path": "mc/kernel.py", "serves_properties": ["C01", "C02", "C03", "C04", "C05", "C09", "C13", "C15", "C16", "C17", "C18", "C19"], "kind_free_text": "hand-written bounded exhaustive explorer: units enumerate a finite space (alphabet x bound), sharded over a fork pool; recorder counts evaluations/distinct cases/states/transitions/witnesses; replay files; known-findings triage"},
 ]
 NOT_YET = {}
 CHECKS = {
+    "C02": {
+        "level": "exploration",
+        "technique": "exhaustive enumeration of table contents from run/shape grammars over boundary alphabets taken from the encoders' branch constants; compile -> decompile equality plus independent struct-only readers and HarfBuzz on the compiled bytes",
+        "text": "For cmap (formats 0/2/4/6/12/13/14), hmtx/vmtx, glyf simple and composite glyphs, loca/padding, name, kern, post, OS/2, Coverage/ClassDef/SingleSubst/ValueRecord, tuple variation stores, gvar fonts, fvar/avar and COLR paint graphs, every content of the bounded grammars is compiled by the real compile(), read back by the real decompile() (object equality) and by independent readers written from the OpenType spec (oracles/c02_readers.py) and HarfBuzz.",
+        "note": "Trusted: oracles/c02_readers.py (struct only), HarfBuzz 12.1. Tables without a generator (morx, bitmaps, Graphite, MultipleSubst/Ligature/PairPos preWrite) are covered only through C01/C03 on corpus data. cmap format 4 with U+FFFF mapped is a recorded known finding.",
+    },
     "C13": {
         "level": "exploration",
         "technique": "exhaustive enumeration of cubic/quadratic curves on control-point lattices x tolerance set, with an exact maximum-deviation oracle (polynomial root finding, rational re-decision near the bound)",
